@@ -882,6 +882,27 @@ func ruleC07_5(c *Ctx) {
 	c.check(org(a[0]) == "p0.CertificateConstraints[*]" && wholeSliceIndex(a[0].(*ssa.UnOp).X), R, fn, "range over all constraints of the step", chk.Pos(), "p0.CertificateConstraints[i] for the whole range", "Check is applied to "+org(a[0]))
 	// certificate = comma-ok assertion of decodeAndParse(key.KeyVal.Certificate)
 	co := org(a[1])
+	// ... or handed back by an unexported helper that was given the key: on every return with a nil error the result
+	// is that assertion of the helper's own parameter, and the check runs only where the helper's error is nil
+	if pc, idx := producer(a[1], chk); pc != nil && idx == 0 {
+		if h := pc.Common().StaticCallee(); h != nil && h.Blocks != nil && h.Pkg == f.Pkg && h.Parent() == nil && h.Object() != nil && !h.Object().Exported() && errIndex(h) == 1 && c.okCallAt(pc, chk.Block()) {
+			for i, ha := range pc.Common().Args {
+				if org(ha) != "p1" || i >= len(h.Params) {
+					continue
+				}
+				rets := c.nilErrReturns(h)
+				okH := len(rets) > 0
+				for _, r := range rets {
+					if org(r.Results[0]) != fmt.Sprintf("in_toto.decodeAndParse(p%d.KeyVal.Certificate)#1.(*crypto/x509.Certificate)", i) {
+						okH = false
+					}
+				}
+				if okH {
+					co = "in_toto.decodeAndParse(p1.KeyVal.Certificate)#1.(*crypto/x509.Certificate)"
+				}
+			}
+		}
+	}
 	c.check(co == "in_toto.decodeAndParse(p1.KeyVal.Certificate)#1.(*crypto/x509.Certificate)", R, fn, "certificate under test is parsed from the key's certificate", chk.Pos(), co, "certificate under test is "+short(co))
 	for _, r := range c.nilErrReturns(f) {
 		c.check(c.okCallAt(chk, r.Block()), R, fn, "success only under a successful Check of one constraint", instrPos(r), "dominated by the nil-error edge of constraint.Check", "CheckCertConstraints can succeed without any constraint having matched")
